@@ -215,6 +215,19 @@ func init() {
 		runLine("2 0-8000=0,8001-16383=1 # q A3 B736574 B6b31 B76 ; kill 0 ; kill 1 ; w ; q A2 B676574 B6b31 ; q A2 B676574 B6b31")
 		runLine("3 0-5000=0,5001-11000=1,11001-16383=2 # q A3 B736574 B6b31 B76 ; q A3 B736574 B6b32 B76 ; q A3 B736574 B6b35 B76 ; mv 1 ; w ; q A2 B676574 B6b31 ; q A2 B676574 B6b31 ; q A2 B676574 B6b32 ; q A2 B676574 B6b35 ; q A2 B676574 B6b32 ; q A2 B676574 B6b35")
 		runLine("2 0-8000=0,8001-16383=1 # down 1 ; down 0 ; w ; q A2 B676574 B6b31 ; up 0 ; up 1 ; w ; q A2 B676574 B6b31 ; q A3 B736574 B6b32 B76 ; q A2 B676574 B6b32")
+		// a long outage: several requests fail while the node is down; as soon as it is back the next one is served
+		{
+			var k1 []byte
+			for i := 0; ; i++ {
+				k1 = []byte("k" + strconv.Itoa(i))
+				if simSlot(k1) > 8000 {
+					break
+				}
+			}
+			g := bulkArr([]byte("get"), k1).String()
+			runLine("2 0-8000=0,8001-16383=1 # q " + g + " ; down 1 ; w ; q " + g + " ; q " + g + " ; q " + g + " ; q " + g + " ; q " + g + " ; up 1 ; q " + g + " ; q " + g)
+			runLine("2 0-8000=0,8001-16383=1 # down 1 ; w ; q " + g + " ; q " + g + " ; q " + g + " ; q " + g + " ; w ; q " + g + " ; q " + g + " ; up 1 ; q " + g)
+		}
 		// a layout change while a refresh round is in flight: the refresh request queued meanwhile must not be lost
 		for i := 0; i < 4; i++ {
 			k1, k2 := []byte("k"+strconv.Itoa(i)), []byte("k"+strconv.Itoa(i+7))
